@@ -12,9 +12,10 @@ KINDS = ["history", "unscheduled", "makespan_reward", "idle_reward", "recorder"]
 
 class Check(PropertyCheck):
     ID = "C09"
-    LEAN_MODULE = "JobShopProofs.Properties.C09"
+    LEAN_MODULE = "JobShopProofs.EnvRejected"
     THEOREMS = ["JS.C09_dispatch_atomic", "JS.C09_staged_eq", "JS.C09_rejected_unchanged", "JS.C09_as_if_never",
-                "JS.C09_rejects"]
+                "JS.C09_rejects", "JS.C09_env_illegal_rejected", "JS.C09_multi_illegal_rejected", "JS.C09_env_as_if_never",
+                "JS.C09_multi_as_if_never", "JS.C09_env_legal_dispatches", "JS.C09_env_raises_iff_illegal"]
     RULE = ("random instance x filter x random history with the full observer set (history, unscheduled, both rewards, a "
             "recorder) attached; invalid requests of 6 kinds (not the next operation, already scheduled, ineligible "
             "machine, out-of-range machine, negative machine, None on a flexible operation) injected before every valid "
